@@ -185,6 +185,9 @@ func findingProbes() []cell {
 	add("break-label:for3-outer", "break L from a nested loop, L labels a for3 loop; the function has a deferred call",
 		"func __P__h(a int) (res int) {\n\tdefer func() {\n\t\t__F__Println(\"deferred\")\n\t}()\n\tc := 0\nL:\n\tfor i := 0; i < 2; i++ {\n\t\tc += i\n\t\tfor j := 0; j < 3; j++ {\n\t\t\tif j == 0 {\n\t\t\t\tbreak L\n\t\t\t}\n\t\t\tc += 10\n\t\t}\n\t\tc += 1000\n\t}\n\treturn a + c\n}\n\n"+
 			tmplMain("\t__F__Printf(\"%d %d\\n\", __P__h(2), 6)\n"))
+	add("return:in-range-loop", "return from inside a range loop, called from inside a range loop",
+		"func __P__h(xs []int) int {\n\tfor _, e := range xs {\n\t\tif e >= 0 {\n\t\t\treturn 5\n\t\t}\n\t}\n\treturn 1\n}\n\n"+
+			tmplMain("\tfor i := range []int{-2, 4} {\n\t\ta := __P__h([]int{74, 6})\n\t\t__F__Printf(\"%d %d\\n\", i, a)\n\t}\n"))
 	add("defer:before-return-expr", "deferred call and the return expression",
 		"func __P__p(s string) int {\n\t__F__Println(s)\n\treturn 1\n}\n\nfunc __P__f() int {\n\tx := 1\n\tdefer func() {\n\t\t__F__Println(\"deferred\")\n\t\tx = 2\n\t}()\n\treturn x + __P__p(\"return expr\")\n}\n\nfunc __P__g() int {\n\tx := 1\n\tdefer func() {\n\t\tx = 2\n\t}()\n\treturn x\n}\n\n"+
 			tmplMain("\t__F__Printf(\"%d\\n\", __P__f())\n\t__F__Printf(\"%d\\n\", __P__g())\n"))
